@@ -82,6 +82,10 @@ func main() {
 			family3(f, info, pkg.Types, add)
 			continue
 		}
+		if *family == 4 {
+			family4(f, info, pkg.Types, add)
+			continue
+		}
 		ast.Inspect(f, func(n ast.Node) bool {
 			switch x := n.(type) {
 			case *ast.SelectorExpr:
@@ -266,6 +270,52 @@ func family3(f *ast.File, info *types.Info, pkg *types.Package, add func(ast.Nod
 			if best != nil {
 				xx, from, to := x, x.Name, best.Name()
 				add(x, "swap-ident", from+"→"+to, func() { xx.Name = to })
+			}
+		}
+		return true
+	})
+}
+
+// family4: swap-case (the label lists of two adjacent clauses of a switch exchanged) and swap-const (a use of a named
+// constant replaced by the next constant of the same type declared in the package: InputEntry ↔ OutputEntry).
+func family4(f *ast.File, info *types.Info, pkg *types.Package, add func(ast.Node, string, string, func())) {
+	// constants of the package by type, in declaration order
+	byType := map[string][]*types.Const{}
+	for _, name := range pkg.Scope().Names() {
+		if k, ok := pkg.Scope().Lookup(name).(*types.Const); ok {
+			if _, named := k.Type().(*types.Named); named {
+				byType[k.Type().String()] = append(byType[k.Type().String()], k)
+			}
+		}
+	}
+	for _, ks := range byType {
+		sort.Slice(ks, func(i, j int) bool { return ks[i].Pos() < ks[j].Pos() })
+	}
+	ast.Inspect(f, func(n ast.Node) bool {
+		switch x := n.(type) {
+		case *ast.SwitchStmt:
+			var clauses []*ast.CaseClause
+			for _, c := range x.Body.List {
+				if cc, ok := c.(*ast.CaseClause); ok && cc.List != nil {
+					clauses = append(clauses, cc)
+				}
+			}
+			for i := 0; i+1 < len(clauses); i++ {
+				a, b := clauses[i], clauses[i+1]
+				add(a, "swap-case", "", func() { a.List, b.List = b.List, a.List })
+			}
+		case *ast.Ident:
+			k, ok := info.Uses[x].(*types.Const)
+			if !ok || k.Pkg() != pkg {
+				return true
+			}
+			ks := byType[k.Type().String()]
+			for i, c := range ks {
+				if c == k && len(ks) > 1 {
+					to := ks[(i+1)%len(ks)]
+					xx, from := x, x.Name
+					add(x, "swap-const", from+"→"+to.Name(), func() { xx.Name = to.Name() })
+				}
 			}
 		}
 		return true
